@@ -10,6 +10,9 @@
 (*   double_exec   an executor runs at most once per node between two      *)
 (*                 commits                                                 *)
 (*   overlap       one node is never executed by two executors at once     *)
+(*   unjustified_exec  (C03) an executor run of a node that completed a    *)
+(*                 run before although every dependency value it read in   *)
+(*                 that run is still the from-scratch value                *)
 (* Events (same vocabulary as EngineObsTrace): prog, begin, set, commit,   *)
 (* query, enter, exec, reset; everything else is consumed unjudged.        *)
 (***************************************************************************)
@@ -17,8 +20,8 @@ EXTENDS Program, TLC, Json, IOUtils
 
 Rec == ndJsonDeserialize(IOEnv.TRACE)
 
-VARIABLES l, done, prog, inputs, pend, ran, running, viol, stats
-vars == <<l, done, prog, inputs, pend, ran, running, viol, stats>>
+VARIABLES l, done, prog, inputs, pend, ran, running, viol, stats, lastReads
+vars == <<l, done, prog, inputs, pend, ran, running, viol, stats, lastReads>>
 
 Ev == Rec[l]
 Is(e) == l <= Len(Rec) /\ Ev.e = e
@@ -29,7 +32,7 @@ V(kind, n, got, want) == [at |-> l, kind |-> kind, n |-> n, got |-> got, want |-
 EmptyProg == [m |-> 1, nodes |-> <<>>]
 
 Init == /\ l = 1 /\ done = FALSE /\ prog = EmptyProg /\ inputs = <<>> /\ pend = <<>>
-        /\ ran = {} /\ running = {} /\ viol = <<>>
+        /\ ran = {} /\ running = {} /\ viol = <<>> /\ lastReads = <<>>
         /\ stats = [queries |-> 0, execs |-> 0, commits |-> 0, runs |-> 0]
 
 (* from-scratch value of one node, evaluated on demand *)
@@ -49,54 +52,60 @@ StartRun ==
     /\ inputs' = [n \in 1..Len(Ev.prog.nodes) |-> None]
     /\ pend' = [n \in 1..Len(Ev.prog.nodes) |-> None]
     /\ ran' = {} /\ running' = {}
+    /\ lastReads' = [n \in 1..Len(Ev.prog.nodes) |-> [has |-> FALSE, reads |-> <<>>]]
     /\ stats' = [stats EXCEPT !.runs = @ + 1]
     /\ UNCHANGED viol /\ Consume
 
 TBegin == Is("begin") /\ pend' = [n \in DOMAIN pend |-> None]
-          /\ UNCHANGED <<prog, inputs, ran, running, viol, stats>> /\ Consume
+          /\ UNCHANGED <<prog, inputs, ran, running, viol, stats, lastReads>> /\ Consume
 TSet == Is("set") /\ pend' = [pend EXCEPT ![Ev.n] = Ev.v]
-        /\ UNCHANGED <<prog, inputs, ran, running, viol, stats>> /\ Consume
+        /\ UNCHANGED <<prog, inputs, ran, running, viol, stats, lastReads>> /\ Consume
 TCommit ==
     /\ Is("commit")
     /\ inputs' = [n \in DOMAIN inputs |-> IF pend[n] # None THEN pend[n] ELSE inputs[n]]
     /\ pend' = [n \in DOMAIN pend |-> None]
     /\ ran' = {}
     /\ stats' = [stats EXCEPT !.commits = @ + 1]
-    /\ UNCHANGED <<prog, running, viol>> /\ Consume
+    /\ UNCHANGED <<prog, running, viol, lastReads>> /\ Consume
 TQuery ==
     /\ Is("query")
     /\ LET want == NodeVal(Ev.n) IN
        viol' = IF Ev.v # want THEN Append(viol, V("query_value", Ev.n, Ev.v, want)) ELSE viol
     /\ stats' = [stats EXCEPT !.queries = @ + 1]
-    /\ UNCHANGED <<prog, inputs, pend, ran, running>> /\ Consume
+    /\ UNCHANGED <<prog, inputs, pend, ran, running, lastReads>> /\ Consume
 TEnter ==
     /\ Is("enter")
     /\ viol' = IF Ev.n \in running THEN Append(viol, V("overlap", Ev.n, 0, 0)) ELSE viol
     /\ running' = running \cup {Ev.n}
-    /\ UNCHANGED <<prog, inputs, pend, ran, stats>> /\ Consume
+    /\ UNCHANGED <<prog, inputs, pend, ran, stats, lastReads>> /\ Consume
 TExec ==
     /\ Is("exec")
     /\ running' = running \ {Ev.n}
-    /\ viol' = IF Ev.ok /\ Ev.n \in ran THEN Append(viol, V("double_exec", Ev.n, 0, 0)) ELSE viol
+    /\ LET lr == lastReads[Ev.n]
+           \* every value read by the previous completed run is still the from-scratch value
+           same == lr.has /\ \A i \in 1..Len(lr.reads) : NodeVal(lr.reads[i][1]) = lr.reads[i][2]
+           v1 == IF Ev.ok /\ Ev.n \in ran THEN Append(viol, V("double_exec", Ev.n, 0, 0)) ELSE viol
+       IN viol' = IF Ev.ok /\ same THEN Append(v1, V("unjustified_exec", Ev.n, 0, 0)) ELSE v1
+    /\ lastReads' = IF Ev.ok THEN [lastReads EXCEPT ![Ev.n] = [has |-> TRUE, reads |-> Ev.reads]] ELSE lastReads
     /\ ran' = IF Ev.ok THEN ran \cup {Ev.n} ELSE ran
     /\ stats' = [stats EXCEPT !.execs = @ + 1]
     /\ UNCHANGED <<prog, inputs, pend>> /\ Consume
 THang ==
     /\ Is("hang")
     /\ viol' = Append(viol, V("no_progress", 0, 0, 0))
-    /\ UNCHANGED <<prog, inputs, pend, ran, running, stats>> /\ Consume
+    /\ UNCHANGED <<prog, inputs, pend, ran, running, stats, lastReads>> /\ Consume
 TReset == Is("reset") /\ ran' = {} /\ running' = {}
-          /\ UNCHANGED <<prog, inputs, pend, viol, stats>> /\ Consume
+          /\ UNCHANGED <<prog, inputs, pend, viol, stats, lastReads>> /\ Consume
 TOther ==
     /\ l <= Len(Rec)
     /\ Ev.e \notin {"prog", "begin", "set", "commit", "query", "enter", "exec", "hang", "reset"}
-    /\ UNCHANGED <<prog, inputs, pend, ran, running, viol, stats>> /\ Consume
+    /\ UNCHANGED <<prog, inputs, pend, ran, running, viol, stats, lastReads>> /\ Consume
 
 Finish ==
     /\ l = Len(Rec) + 1 /\ ~done
     /\ JsonSerialize(IOEnv.OUT, [events |-> Len(Rec), stats |-> stats, viol |-> viol])
     /\ done' = TRUE
-    /\ UNCHANGED <<l, prog, inputs, pend, ran, running, viol, stats>>
+    /\ UNCHANGED <<l, prog, inputs, pend, ran, running, viol, stats, lastReads>>
 
 Next == StartRun \/ TBegin \/ TSet \/ TCommit \/ TQuery \/ TEnter \/ TExec \/ THang \/ TReset \/ TOther \/ Finish
 Spec == Init /\ [][Next]_vars
